@@ -158,8 +158,13 @@ dev_impl! {
                 }
                 PoolOp::IdentityOn { i } => {
                     let ty = pick(i).1.tgt_type();
-                    let got = if step % 2 == 0 { OH::<K>::identity(Self::sf(ty.clone())) } else { <OH<K> as Arrow>::identity(Self::sf(ty.clone())) };
-                    (Some(got), Some(Plain::identity(&ty)))
+                    if step % 5 == 4 {
+                        // the identity on the monoidal unit is the empty diagram
+                        (Some(<OH<K> as Arrow>::identity(<OH<K> as Monoidal>::unit())), Some(Plain::identity(&[])))
+                    } else {
+                        let got = if step % 2 == 0 { OH::<K>::identity(Self::sf(ty.clone())) } else { <OH<K> as Arrow>::identity(Self::sf(ty.clone())) };
+                        (Some(got), Some(Plain::identity(&ty)))
+                    }
                 }
                 PoolOp::TwistAfter { i, j } => {
                     let (a, b) = (pick(i), pick(j));
@@ -362,8 +367,12 @@ pub fn lax_pool(c: &Case) -> Vec<StepObs> {
             }
             PoolOp::IdentityOn { i } => {
                 let ty = pick(i).1.tgt_type();
-                let got = if step % 2 == 0 { <LOH as Arrow>::identity(ty.clone()) } else { LOH::identity(ty.clone()) };
-                (Some(got), Some(Plain::identity(&ty)))
+                if step % 5 == 4 {
+                    (Some(<LOH as Arrow>::identity(<LOH as Monoidal>::unit())), Some(Plain::identity(&[])))
+                } else {
+                    let got = if step % 2 == 0 { <LOH as Arrow>::identity(ty.clone()) } else { LOH::identity(ty.clone()) };
+                    (Some(got), Some(Plain::identity(&ty)))
+                }
             }
             PoolOp::TwistAfter { i, j } => {
                 let (a, b) = (pick(i), pick(j));
